@@ -641,10 +641,11 @@ impl CanonicalizeContext {
 					bail!("{} should have 3 children:\n{}", element_name, mml_to_string(&mathml));
 				},
 				"mmultiscripts" => {
-					let has_prescripts = mathml.children().iter()
-							.any(|&child| name(&as_element(child)) == "mprescripts");
-					if n_children == 0 || (has_prescripts ^ (n_children % 2 == 0)) ||
-					   name(&as_element(mathml.children()[0])) == "mprescripts" {		// the first child is the base
+					// base, pairs of postscripts, and optionally mprescripts followed by pairs of prescripts
+					let i_prescripts = mathml.children().iter()
+							.position(|&child| name(&as_element(child)) == "mprescripts").unwrap_or(n_children);
+					if n_children == 0 || i_prescripts == 0 || i_prescripts % 2 == 0 ||
+					   (i_prescripts < n_children && (n_children - i_prescripts) % 2 == 0) {
 						bail!("{} has the wrong number of children:\n{}", element_name, mml_to_string(&mathml));
 					}
 				},
